@@ -81,3 +81,28 @@ theorem LegacyOneDec_raw : LegacyOneDec.raw = precision := rfl
 theorem LegacyNewDec_one_raw : (LegacyNewDec 1).raw = precision := by decide
 
 end Irismod.GoSem
+
+namespace Irismod.GoSem
+open Irismod.Sdk
+
+/-! coins of one denomination with non-negative amounts -/
+theorem Coin_Add_nat (d : String) (a b : Nat) :
+    Coin_Add ⟨d, (a : Int)⟩ ⟨d, (b : Int)⟩ = if a + b < pow2_256 then some ⟨d, ((a + b : Nat) : Int)⟩ else none := by
+  simp only [Coin_Add, if_true, I256.add, ← Int.natCast_add, chkInt_natCast]
+  split <;> rfl
+
+theorem Coin_Sub_nat (d : String) (a b : Nat) (h : b ≤ a) (ha : a < pow2_256) :
+    Coin_Sub ⟨d, (a : Int)⟩ ⟨d, (b : Int)⟩ = some ⟨d, ((a - b : Nat) : Int)⟩ := by
+  have hlt : a - b < pow2_256 := by omega
+  have hn : ¬ ((a - b : Nat) : Int) < 0 := by omega
+  simp only [Coin_Sub, if_true, I256.sub, ← Int.ofNat_sub h, chkInt_natCast, hlt, hn, if_false]
+
+theorem Coin_IsLT_nat (d : String) (a b : Nat) :
+    Coin_IsLT ⟨d, (a : Int)⟩ ⟨d, (b : Int)⟩ = some (decide (a < b)) := by
+  simp only [Coin_IsLT, if_true, Int.ofNat_lt]
+
+theorem NewCoin_nat (d : String) (n : Nat) (hd : ValidateDenom d = true) : NewCoin d (n : Int) = some ⟨d, (n : Int)⟩ := by
+  have : (0 : Int) ≤ (n : Int) := Int.natCast_nonneg n
+  simp [NewCoin, hd, this]
+
+end Irismod.GoSem
